@@ -27,6 +27,7 @@ type env struct {
 	what     string // for error messages
 	cur      *state // the state contract evaluation started in (ghost locals live there)
 	topHint  types.Type // expected type of the whole expression (spec function result)
+	free     map[string]Val // captured variables of a closure under contract: name -> cell address
 }
 
 func (e *env) with(st *state) *env {
@@ -214,6 +215,9 @@ func (e *env) ev(x ast.Expr, hint types.Type) Val {
 		}
 		if v, ok := e.vars[n.Name]; ok {
 			return v
+		}
+		if fp, ok := e.free[n.Name]; ok {
+			return e.st.loadPtr(fp, fp.T.Underlying().(*types.Pointer).Elem())
 		}
 		if v, ok := e.st.ghost["L_"+n.Name]; ok {
 			return v
@@ -563,6 +567,11 @@ func (e *env) addrOf(x ast.Expr) Val {
 	case *ast.ParenExpr:
 		return e.addrOf(n.X)
 	case *ast.Ident:
+		if fp, ok := e.free[n.Name]; ok {
+			if _, shadow := e.vars[n.Name]; !shadow {
+				return fp
+			}
+		}
 		if e.useNames {
 			if nb, ok := e.st.names[n.Name]; ok && nb.isAddr {
 				return e.st.get(nb.v)
